@@ -318,8 +318,13 @@ def _judge(p, cfg, devs, ex, info):
             if key in answered_at:
                 apos = answered_at[key]
                 if last_lockacq.get(th, -1) > apos:
-                    viol('retransmitted_after_answer', 'request %r retransmitted at t=%.3f by %s although its answer had '
-                         'been processed before the sender entered the send section' % (name, t, th))
+                    # (qualifier: another request that awaits the very same pattern has been sent since - the retry of the
+                    # answered one finds "its" pattern pending again)
+                    others = [q for q in pending.get(pat, []) if (q['name'], q['link']) != key]
+                    viol('retransmitted_after_answer' + (':same_pattern_awaited_by_a_later_request' if others else ''),
+                         'request %r retransmitted at t=%.3f by %s although its answer had been processed before the sender '
+                         'entered the send section%s' % (name, t, th, ' (request %r, sent since, awaits the same pattern)'
+                                                         % others[0]['name'] if others else ''))
                 continue
     # ---- cadence: every pending-or-answered request retransmits exactly every timeout ----------
     to = cfg['timeout']
